@@ -832,3 +832,56 @@ Proof.
   destruct (win_org [(0, 0, cols, rows)]) as [ox oy]. apply andb_prop in H. exact (proj2 H).
 Qed.
 
+
+(* ------------------------------------------------------------------ App.Run's call: clipped to the root surface as well *)
+
+Lemma app_window_clip {A} cols rows (s : surface A) x y : 0 <= s_w s -> 0 <= s_h s ->
+  win_org (app_window cols rows s) = (0, 0) /\
+  win_clip (app_window cols rows s) x y = in_rect 0 0 cols rows x y && in_rect 0 0 (s_w s) (s_h s) x y.
+Proof.
+  intros Hw Hh. unfold app_window.
+  pose proof (win_new_spec [(0, 0, cols, rows)] 0 0 (s_w s) (s_h s) x y ltac:(discriminate) Hw Hh) as H.
+  cbn [win_org] in H. cbn [Z.add] in H. destruct H as [H1 H2]. split; [exact H1|].
+  rewrite H2. cbn [win_clip win_org]. cbn [Z.add]. rewrite andb_true_r. reflexivity.
+Qed.
+
+(* under App.Run's call: every painted cell also lies inside the root surface *)
+Lemma apprun_clipped_to_root {A} (sorter : list Z -> list nat) (s : surface A) cols rows (sc : screen A) :
+  wf_tree s -> screen_wf sc ->
+  exists ps sc', render_gen sorter (app_window cols rows s) s = Some ps /\ screen_apply sc ps = Some sc' /\
+    forall x y, 0 <= x < sc_cols sc -> 0 <= y < sc_rows sc ->
+      screen_get sc' x y = screen_get sc x y \/
+      exists c path, screen_get sc' x y = Some c /\
+        in_rect 0 0 (s_w s) (s_h s) x y = true /\ in_rect 0 0 cols rows x y = true /\
+        paint_path s 0 0 x y c path /\ Forall (fun r => rect_has r x y = true) path.
+Proof.
+  intros Hs Hsc. pose proof (wf_tree_node s Hs) as (Hw & Hh & _).
+  destruct (render_clipped_to_ancestors sorter s (app_window cols rows s) sc Hs ltac:(unfold app_window, win_new; discriminate) Hsc)
+    as (ps & sc' & E1 & E2 & H).
+  exists ps, sc'. split; [exact E1|]. split; [exact E2|]. intros x y Hx Hy.
+  destruct (H x y Hx Hy) as [Hu|(c & path & Hg & Hclip & Hp & Hall)]; [left; exact Hu|].
+  right. destruct (app_window_clip cols rows s x y ltac:(lia) ltac:(lia)) as [Eorg Eclip].
+  rewrite Eorg in Hp. cbn [fst snd] in Hp. rewrite Eclip in Hclip. apply andb_prop in Hclip.
+  exists c, path. repeat split; try tauto.
+Qed.
+
+Lemma apprun_run_ok cols rows (s : surface Z) : 0 <= cols -> 0 <= rows ->
+  apprun_ok ((cols, rows, s), apprun_run (cols, rows, s)) = true.
+Proof.
+  intros Hc Hr. unfold apprun_ok, apprun_run. cbv beta iota.
+  match goal with |- context [renderwin_run ?i] => set (o := renderwin_run i); set (inp := i) in * end.
+  assert (H : renderwin_ok (inp, o) = true) by (apply renderwin_run_ok; assumption).
+  clearbody o. destruct o as [out scr]. subst inp.
+  apply andb_true_intro; split; [exact H|]. unfold renderwin_ok in H.
+  destruct (tree_wf_b s) eqn:Ewf; [|reflexivity].
+  apply tree_wf_b_sound in Ewf. pose proof (wf_tree_node s Ewf) as (Hw & Hh & _).
+  change (win_chain cols rows [(0, 0, s_w s, s_h s)]) with (app_window cols rows s) in H.
+  destruct (win_org (app_window cols rows s)) as [ox oy].
+  apply andb_prop in H. destruct H as [H _]. apply andb_prop in H. destruct H as [_ H].
+  unfold root_clip_ok. revert H. apply all_rows_impl. intros x y c H.
+  destruct (app_window_clip cols rows s x y ltac:(lia) ltac:(lia)) as [_ Eclip].
+  destruct (win_clip (app_window cols rows s) x y) eqn:E.
+  - symmetry in Eclip. apply andb_prop in Eclip. rewrite (proj2 Eclip). apply orb_true_r.
+  - rewrite H. reflexivity.
+Qed.
+
